@@ -125,7 +125,7 @@ func runC03(ci interface{}) Result {
 		}
 		return r
 	}
-	r.Classes = append(r.Classes, "refresh:"+sc.Cfg.Refresh)
+	r.Classes = append(append(r.Classes, "refresh:"+sc.Cfg.Refresh), featureClasses(sc)...)
 	if tr.LateChunks > 0 {
 		r.Err, r.Kind = fmt.Errorf("%d write(s) reached the output after Wait had returned", tr.LateChunks), "late-write"
 		return r
